@@ -16,6 +16,7 @@ import (
 type TestOnlyViolation struct {
 	Pos         token.Pos
 	TestOnlyObj string // Name of the @testonly object being used
+	ObjPkgPath  string // Package path of the @testonly type (type usage violations)
 	Kind        annotations.TestOnlyKind
 	UsedInFile  string // File where @testonly object is used
 	Reason      string
